@@ -411,7 +411,7 @@ def run(ctx):
     G.run_families(ctx, __name__, 6, 7, [0, 6])
     from .. import astgen as A
     ns = 16
-    for fam in ('no-rules', 'rules', 'examples-shapes', 'pairs'):
+    for fam in ('no-rules', 'rules', 'examples-shapes', 'pairs', 'repetition'):
         ctx.level('compiler shapes:' + fam, [A.job_shapes.job(__name__, fam, s, ns, ctx.quick) for s in range(ns)])
     from .. import docspace as DS
     mc = ctx.pick(250, 1500)
